@@ -64,6 +64,35 @@ def fam_C09(tier, seed):
         b.unload(a, bf, 1)
         b.load(c, bf, 1)
         ps.append(b.done())
+    # instants far from 0 (a pinned schedule on a long horizon: three-digit times in the reported history), with two
+    # accesses at the same instant on a concurrent buffer
+    for conc in (True, False):
+        # (release date + deadline pin every task: TLC's machine prunes on them while time advances)
+        b = PB(312, tag="late-instants")
+        bf = b.buffer("Bf", concurrent=conc, initial=100, lower=0)
+        a = b.task("A", "F", dur=2, release=300, due=302)
+        c = b.task("B", "F", dur=3, release=300 if conc else 302, due=303 if conc else 305)
+        d = b.task("C", "F", dur=1, release=310, due=311)
+        b.unload(a, bf, 50)
+        (b.unload if conc else b.load)(c, bf, 12)
+        b.unload(d, bf, 17)
+        q = b.done()
+        q["keep"] = True
+        ps.append(q)
+    # a user-defined subclass of a buffer class behaves like its base class
+    for conc, simultaneous in itertools.product((False, True), (False, True)):
+        b = PB(3, tag="buffer-subclass")
+        bf = b.buffer("Silo", concurrent=conc, initial=2, lower=0)
+        b.p["buffers"][bf - 1]["subclass"] = True
+        a = b.task("A", "F", dur=1)
+        c = b.task("B", "F", dur=1)
+        b.unload(a, bf, 1)
+        b.unload(c, bf, 1)
+        if simultaneous:
+            b.con("TasksStartSynced", t1=a, t2=c)
+        q = b.done()
+        q["keep"] = True
+        ps.append(q)
     if not full:
         ps = sample(rng, ps, 160)
     return number(ps)
